@@ -1,0 +1,35 @@
+//go:build verif
+
+package format
+
+// Contracts for gocv (comment-only; see /verif/DESIGN.md).  No executable code.
+
+// ---- C20: formats are decided by fixed tables; content signatures are read safely ----
+
+// extension table (lower-cased extension -> format)
+//@ spec func extFormat(ext string) int = ext == ".pdf" ? 1 : (ext == ".docx" ? 2 : (ext == ".odt" ? 3 : (ext == ".xlsx" ? 4 : (ext == ".pptx" ? 5 : ((ext == ".html" || ext == ".htm") ? 6 : (ext == ".epub" ? 7 : 0))))))
+
+//@ func Detect results (r)
+//@   property C20
+//@   ensures table: r == extFormat(ext)
+//@   ensures constants: Unknown == 0 && PDF == 1 && DOCX == 2 && ODT == 3 && XLSX == 4 && PPTX == 5 && HTML == 6 && EPUB == 7
+
+// every supported format is recognised under its own canonical extension
+//@ lemma ext_roundtrip(f int)
+//@   property C20
+//@   requires 1 <= f && f <= 7
+//@   ensures extFormat(Extension(f)) == f
+
+//@ func DetectFromMagic results (r)
+//@   property C20, C02
+//@   ensures pdf: len(data) >= 4 && data[0] == '%' && data[1] == 'P' && data[2] == 'D' && data[3] == 'F' ==> r == PDF
+//@   ensures short: len(data) < 4 ==> r == Unknown
+//@   ensures only: r == PDF || r == HTML || r == Unknown
+
+//@ func detectHTMLMagic results (r)
+//@   property C20, C02
+//@   ensures blank: (forall k int :: {data[k]} 0 <= k && k < len(data) ==> (data[k] == ' ' || data[k] == 9 || data[k] == 10 || data[k] == 13)) ==> !r
+//@   loop 0:
+//@     invariant 0 <= start && start <= len(data)
+//@     invariant forall k int :: {data[k]} 0 <= k && k < start ==> (data[k] == ' ' || data[k] == 9 || data[k] == 10 || data[k] == 13)
+//@     decreases len(data) - start
